@@ -13,6 +13,7 @@ Fam == CASE Family = "derived-quick" -> DerivedFamily(FALSE)
          [] Family = "fault"         -> FaultFamily
          [] Family = "lists-quick"   -> ListFamily(FALSE)
          [] Family = "lists-full"    -> ListFamily(TRUE)
+         [] Family = "cli"           -> CliFamily
          [] Family = "tail-fin-1"    -> TailFinFamily(1, {0, 1, 3})
          [] Family = "tail-fin-2"    -> TailFinFamily(2, {3})
          [] Family = "tail-inf-1"    -> TailInfFamily(1)
@@ -30,13 +31,16 @@ Run == m.status = "run" /\ m' = Step(m) /\ UNCHANGED <<pid, pc, results>>
 Finish == /\ m.status = "done" /\ pc > 0 /\ Len(results) < pc
           /\ results' = Append(results, [r |-> m.result, out |-> m.out])
           /\ UNCHANGED <<pid, pc, m>>
-NextForm == /\ m.status = "done" /\ Len(results) = pc /\ pc < Len(Forms)
+\* a program FILE stops at the first failing form (C17); the other families go on (one interpreter, form by form)
+StopsAtFailure == FamSeq[pid].tag[1] = "cli"
+Halted == StopsAtFailure /\ results # <<>> /\ results[Len(results)].r.k = "error"
+NextForm == /\ m.status = "done" /\ Len(results) = pc /\ pc < Len(Forms) /\ ~Halted
             /\ pc' = pc + 1 /\ m' = Submit(m, Forms[pc + 1])
             /\ UNCHANGED <<pid, results>>
 Next == Run \/ Finish \/ NextForm
 Spec == Init /\ [][Next]_vars
 
-Done == pc = Len(Forms) /\ Len(results) = pc
+Done == (pc = Len(Forms) \/ Halted) /\ Len(results) = pc
 
 ----------------------------------------------------------------------------
 (* laws *)
@@ -137,6 +141,16 @@ ListLaw ==
          [] kind = "mem" /\ r.k = "value" ->            \* the first sublist whose car is the object, or #f
               (r.v = False \/ (r.v.t = "pair" /\ Eqv(r.v.a, ArgOf(f, 1))))
          [] OTHER -> TRUE
+
+(* C17: the observables of running a program file are functions of the per-form outcomes *)
+CliStdout == LET RECURSIVE Cat(_) Cat(i) == IF i > Len(results) THEN <<>> ELSE results[i].out \o Cat(i + 1) IN Cat(1)
+CliExitZero == \A i \in DOMAIN results : results[i].r.k # "error"
+CliLaw ==
+  (Done /\ FamSeq[pid].tag[1] = "cli") =>
+     /\ (CliExitZero => Len(results) = Len(Forms))                           \* nothing failed: every form ran
+     /\ (Len(results) < Len(Forms) => ~CliExitZero)                          \* stopped early only because of a failure
+     /\ \A i \in 1..(Len(results) - 1) : results[i].r.k # "error"            \* only the last evaluated form can be the failing one
+     /\ (~CliExitZero => results[Len(results)].r.k = "error")
 
 Emit == Done => PrintT(<<"VEC", ToJson([forms |-> Forms, tag |-> FamSeq[pid].tag, results |-> results])>>)
 =============================================================================
